@@ -150,7 +150,7 @@ def generate(rng):
             # two tasks: ANOTHER estimator (built from the same parameter objects) is fitted by a second task; the scheduler
             # runs its whole fit just before the at-th optimiser step of this call
             op["nested_other"] = {"at": rng.randint(1, 4), "data": rng.randrange(3)}
-        if k in ("fit", "fit_predict", "path") and not is_kauri and "nested_other" not in op and rng.random() < 0.07:
+        if k in ("fit", "fit_predict", "path") and "nested_other" not in op and rng.random() < 0.07:
             # two tasks in lock step: another estimator (own object, same parameter objects) is fitted by a second thread and
             # the seeded scheduler alternates the two calls at every optimiser step / GEMINI evaluation
             op["concurrent_other"] = {"data": rng.randrange(3), "seed": rng.randrange(2 ** 31)}
@@ -545,12 +545,20 @@ def execute(record):
                                 tasks = TwoTasks(_random.Random(conc["seed"]), log)
                                 world.step_hooks.append(tasks.yield_point)
                                 world.eval_hooks.append(tasks.yield_point)
+                                saved_split = world.split_hook
+                                if is_kauri:
+                                    # KAURI's seam: every call of the split finder (one per growth step)
+                                    def split_yield(w, orig, *a):
+                                        tasks.yield_point()
+                                        return orig(*a)
+                                    world.split_hook = split_yield
                                 box = {}
                                 try:
                                     err1 = tasks.run(lambda: box.__setitem__("ret", the_call()), lambda: other.fit(Xo, Ao))
                                 finally:
                                     world.step_hooks.remove(tasks.yield_point)
                                     world.eval_hooks.remove(tasks.yield_point)
+                                    world.split_hook = saved_split
                                 ret = box.get("ret")
                                 if err1 is not None:
                                     if isinstance(err1, (SimFault, SimBudget, HarnessError)) or is_harness_frame(err1):
